@@ -117,6 +117,8 @@ def reads_request(name, a):
                 {"frequencies": fr, "coef": coef, "grid_mapping_table": gmt})
     if name == "distribute_fc2":
         fc2, al, fi, rc, perms, ma, ms = a
+        if perms.size > 200000:
+            return None
         return ("reads distribute_fc2 %d %d %d %d %s %s %s %s %s" % (perms.shape[1], perms.shape[0], len(al), fc2.shape[0], ints(al), ints(fi), ints(ma), ints(ms), ints(perms)),
                 {"permutations": perms, "fc2": fc2, "map_atoms": ma})
     if name in ("perm_trans_symmetrize_compact_fc", "transpose_compact_fc"):
